@@ -19,7 +19,7 @@ DECIDING = ["qiskit_compared", "cirq_compared", "sympy_compared", "qasm_parsed"]
 ASSUMPTIONS = ["qiskit Operator / cirq.unitary / sympy represent are trusted as simulators of the exported objects", "QASM angles are printed with two decimals by design: parameters are compared within 0.005",
                "an explicit 'Gate not handled' exception marks a gate outside that exporter's exportable set (counted, not a violation) except for barriers, which are no-ops",
                "pennylane and qutip_qip are not installed: those exporters cannot be executed and are outside the claim"]
-CASE_TIMEOUT = {"quick": 60, "thorough": 120}
+CASE_TIMEOUT = {"quick": 30, "thorough": 120}
 MAX_WORKERS = 16
 
 
